@@ -56,16 +56,32 @@ Definition unpack (l : list int) : list N := flat_map fields_of l.
 Definition sgn (n : N) : Z := Z.of_N n - 2048.
 Definition nn (n : N) : nat := N.to_nat n.
 
-Definition dec_call (k d : N) : call := match k with 0%N => CAdd (sgn d) | _ => CWait end.
+(* a signed value: one field v+2048, or the escape 4095 followed by a sign field and the magnitude
+   in six 12-bit fields, little endian (deltas such as 1<<31, 1<<62) *)
+Definition take_z (l : list N) : option (Z * list N) :=
+  match l with
+  | 4095%N :: neg :: m0 :: m1 :: m2 :: m3 :: m4 :: m5 :: r =>
+      let m := (m0 + 4096 * (m1 + 4096 * (m2 + 4096 * (m3 + 4096 * (m4 + 4096 * m5)))))%N in
+      Some ((match neg with 0%N => Z.of_N m | _ => - Z.of_N m end)%Z, r)
+  | 4095%N :: _ => None
+  | v :: r => Some (sgn v, r)
+  | [] => None
+  end.
+
+Definition dec_call (k : N) (d : Z) : call := match k with 0%N => CAdd d | _ => CWait end.
 
 Fixpoint dec_calls (n : nat) (l : list N) : option (list call * list N) :=
   match n with
   | O => Some ([], l)
   | S n' =>
       match l with
-      | k :: d :: r =>
-          match dec_calls n' r with
-          | Some (cs, r') => Some (dec_call k d :: cs, r')
+      | k :: r0 =>
+          match take_z r0 with
+          | Some (d, r) =>
+              match dec_calls n' r with
+              | Some (cs, r') => Some (dec_call k d :: cs, r')
+              | None => None
+              end
           | None => None
           end
       | _ => None
@@ -102,11 +118,11 @@ Fixpoint take_n (n : nat) (l : list N) : option (list nat * list N) :=
             end
   end.
 
-Definition dec_ev (e k d v : N) : option ev :=
+Definition dec_ev (e k : N) (d v : Z) : option ev :=
   match e with
   | 0%N => Some (ECall (dec_call k d))
   | 1%N => Some (ERet (dec_call k d)
-                      (match k with 0%N => RInt (sgn v) | _ => RChan (Z.to_nat (sgn v)) end))
+                      (match k with 0%N => RInt v | _ => RChan (Z.to_nat v) end))
   | 2%N => Some ETau
   | 3%N => Some EStutter
   | 4%N => Some (ERet (dec_call k d) RPanic)
@@ -118,14 +134,26 @@ Fixpoint dec_steps (n : nat) (l : list N) : option (list witem * list N) :=
   | O => Some ([], l)
   | S n' =>
       match l with
-      | tid :: e :: k :: d :: v :: cnt :: site :: ncl :: r =>
-          match dec_ev e k d v, take_n (nn ncl) r with
-          | Some e', Some (cl, r') =>
-              match dec_steps n' r' with
-              | Some (its, r'') => Some (Item (nn tid) e' (sgn cnt, cl) (nn site) :: its, r'')
+      | tid :: e :: k :: r0 =>
+          match take_z r0 with
+          | Some (d, r1) =>
+              match take_z r1 with
+              | Some (v, r2) =>
+                  match take_z r2 with
+                  | Some (cnt, site :: ncl :: r) =>
+                      match dec_ev e k d v, take_n (nn ncl) r with
+                      | Some e', Some (cl, r') =>
+                          match dec_steps n' r' with
+                          | Some (its, r'') => Some (Item (nn tid) e' (cnt, cl) (nn site) :: its, r'')
+                          | None => None
+                          end
+                      | _, _ => None
+                      end
+                  | _ => None
+                  end
               | None => None
               end
-          | _, _ => None
+          | None => None
           end
       | _ => None
       end
@@ -333,6 +361,9 @@ Definition c02_trace_judge (c : wg_case) : nat :=
                  whatever it is - the deadline is an absolute time fixed at the call
                  (WGTimed: the k of TW0 k only counts down; WGTimed.twr_unbounded is the model of
                  an implementation that restarts it)
+     scenario 3  WaitCTX(ctx), ctx = WithTimeout(10 d) cancelled by its owner at d/2, count 1: the
+                 context's error right after the cancellation (a deadline-carrying context that
+                 ends early must end the wait)
    result: 0 nil, 1 the deadline's error, 2 no answer within 5 d.  The factor 2 is slack for a
    loaded machine; the harness re-measures before it writes a violating case.                *)
 Record dl_case := DlCase {
@@ -350,7 +381,11 @@ Definition dl_ok (c : dl_case) : bool :=
   | 0%N => N.eqb (dl_res c) 0 && N.leb (10 * dl_elapsed c) (7 * dl_d c)
   | 1%N => N.eqb (dl_res c) 1 && N.leb (8 * dl_d c) (10 * dl_elapsed c)
            && N.leb (dl_elapsed c) (2 * dl_d c)
-  | _ => negb (N.eqb (dl_res c) 2) && N.leb (dl_elapsed c) (2 * dl_d c)
+  | 2%N => negb (N.eqb (dl_res c) 2) && N.leb (dl_elapsed c) (2 * dl_d c)
+  (* scenario 3: WaitCTX with a context whose deadline is 10 d away, CANCELLED at d/2, count 1,
+     never released: the context's error, not before 0.4 d and not after 2 d *)
+  | _ => N.eqb (dl_res c) 1 && N.leb (4 * dl_d c) (10 * dl_elapsed c)
+         && N.leb (dl_elapsed c) (2 * dl_d c)
   end%N.
 
 Definition dl_judge (c : dl_case) : nat := if dl_ok c then 0%nat else 1%nat.
